@@ -49,6 +49,7 @@ class LenInterp(Interp):
         self._loopk = []
         self._frm = []
         self._last_head = None
+        self.exit_split = None
         self.access_hook = frontier_hook
 
     # -- (a) templates ------------------------------------------------------------------------------------------
@@ -67,10 +68,17 @@ class LenInterp(Interp):
         self._loopk.append(set(k for k in ks if 2 <= k <= 8))
         self._frm.append(frm)
         try:
-            return Interp.run_loop(self, fn, L, st, frm, rets)
+            exits = Interp.run_loop(self, fn, L, st, frm, rets)
         finally:
             self._loopk.pop()
             self._frm.pop()
+        if self.exit_split is not None and not self._frm and self.recording == 0:
+            # finite case analysis on leaving an outermost loop (e.g. by the residue of the stop position)
+            out = []
+            for (s, f, t) in exits:
+                out.extend((s2, f, t) for s2 in self.exit_split(self, s))
+            exits = out
+        return exits
 
     def build_head(self, st, fn, L, phis, inits, modified, smashed, signs=None):
         H, newsyms = Interp.build_head(self, st, fn, L, phis, inits, modified, smashed, signs)
@@ -617,8 +625,10 @@ class LenRun(ContractRun):
         ContractRun.__init__(self, interp, list(struct_specs))
         self.binders = []
         self.broken = []
+        self.ret_cases = []     # dict(name=, when=[...], then=[...]): premises assumed at the return
 
     def check_return(self, fn, spec, env, struct_params, T, rv, posts=None):
+        from contracts import assume_text
         saved = env.names
         env.names = dict(saved)
         try:
@@ -627,7 +637,23 @@ class LenRun(ContractRun):
                 if why:
                     self.broken.append('%s: %s' % (fn.srcname or fn.name, why))
                     return
-            return ContractRun.check_return(self, fn, spec, env, struct_params, T, rv, posts)
+            ContractRun.check_return(self, fn, spec, env, struct_params, T, rv, posts)
+            for pc in self.ret_cases:
+                Ts = [T.fork()]
+                for w in pc['when']:
+                    nxt = []
+                    for s in Ts:
+                        nxt.extend(assume_text(s, env, w))
+                    Ts = nxt
+                # a path that the premise contradicts through a recorded disequality is not a path of this case
+                Ts = [s for s in Ts if not any(s.cons.entails(d) and s.cons.entails(-d) for d in s.diseq.values())]
+                if not Ts:
+                    for t in pc['then']:
+                        self.record(fn, 'post', '%s: %s' % (pc['name'], t), True, None, vacuous=True)
+                    continue
+                for s in Ts:
+                    ContractRun.check_return(self, fn, spec, env, struct_params, s, rv,
+                                             [dict(name=pc['name'], when=[], then=pc['then'])])
         finally:
             env.names = saved
 
@@ -810,10 +836,10 @@ def b64enc_rule(rep, mod, broken):
     r.binders.append(bind_outlen(model, box))
     # ret_len = length of the returned string.  The premises are assumed at the return (one analysis of the function, the
     # three classes of size are separated by the paths through the tail)
-    posts = [dict(name='size==3q', when=['ret_len >= 0', 'arg2 == 3 * q'], then=['ret_len == 4 * q', 'rd_in == arg2']),
-             dict(name='size==3q+1', when=['ret_len >= 0', 'arg2 == 3 * q + 1'], then=['ret_len == 4 * q + 4', 'rd_in == arg2']),
-             dict(name='size==3q+2', when=['ret_len >= 0', 'arg2 == 3 * q + 2'], then=['ret_len == 4 * q + 4', 'rd_in == arg2'])]
-    r.run(f.name, FnSpec(pre=['arg2 <= %d' % MAXLEN], setup=setup, post=posts), fn=f)
+    r.ret_cases = [dict(name='size==3q', when=['arg2 == 3 * q'], then=['ret_len == 4 * q', 'rd_in == arg2']),
+                   dict(name='size==3q+1', when=['arg2 == 3 * q + 1'], then=['ret_len == 4 * q + 4', 'rd_in == arg2']),
+                   dict(name='size==3q+2', when=['arg2 == 3 * q + 2'], then=['ret_len == 4 * q + 4', 'rd_in == arg2'])]
+    r.run(f.name, FnSpec(pre=['arg2 <= %d' % MAXLEN], setup=setup), fn=f)
     broken.extend(r.broken)
     import_obs(rep, 'R-B64ENCLEN', it, r, 'igris::base64_encode', mod)
 
@@ -835,18 +861,28 @@ def b64dec_rule(rep, mod, broken):
         n = fresh_env(st, env, 'n')
         P = fresh_env(st, env, 'P')
         st.cons.add_le(P, n)
-        fresh_env(st, env, 'Q')
+        Q = fresh_env(st, env, 'Q')
         this, do = model.make(st, 'encoded', n, radix=1, text=Base64Text(P))
         args[1] = this
         box['in'] = do.id
         box['out'] = args[0]
+
+        def split(interp, s):
+            # P == 4*Q + k for exactly one k in 0..3 (Q is not constrained otherwise)
+            out = []
+            for k in range(4):
+                s2 = s.fork()
+                s2.cons.add_eq(P, Q * 4 + k)
+                if not interp.infeasible(s2, P, Q):
+                    out.append(s2)
+            return out
+        it.exit_split = split
     r.binders.append(bind_frontiers(box, [('rd_in', 'in', 'rd')]))
     r.binders.append(bind_outlen(model, box))
-    posts = []
     for k in range(4):
-        posts.append(dict(name='stop-after-4Q+%d-symbols' % k, when=['P == 4 * Q + %d' % k],
-                          then=['ret_len == 3 * Q + %d' % max(k - 1, 0), 'rd_in >= P', 'rd_in <= P + 1']))
-    r.run(f.name, FnSpec(setup=setup, post=posts), fn=f)
+        r.ret_cases.append(dict(name='stop-after-4Q+%d-symbols' % k, when=['P == 4 * Q + %d' % k],
+                                then=['ret_len == 3 * Q + %d' % max(k - 1, 0), 'rd_in >= P', 'rd_in <= P + 1']))
+    r.run(f.name, FnSpec(setup=setup), fn=f)
     broken.extend(r.broken)
     import_obs(rep, 'R-B64DECLEN', it, r, 'igris::base64_decode', mod)
 
